@@ -16,6 +16,7 @@ var hammerCalls = []string{"isleader", "leaderid", "token", "status", "validate"
 func genRacePlan(t *rapid.T) *Plan {
 	p := GenPlan(t, "race", knobsRace)
 	p.NoQuiesce = true
+	p.Lean = rapid.IntRange(0, 3).Draw(t, "lean") > 0
 	nh := rapid.IntRange(1, 3).Draw(t, "nhammers")
 	for i := 0; i < nh; i++ {
 		from := time.Duration(rapid.Int64Range(0, int64(p.Horizon/2)).Draw(t, "h_from"))
@@ -34,6 +35,23 @@ func OracleC20(tr *Trace) Verdict {
 	v := Verdict{Premise: true}
 	// non-trivial: API calls of the hammer overlapped a background transition
 	trans := 0
+	if tr.Plan.Lean {
+		// nothing is recorded from library goroutines in lean plans: a transition is an acquisition
+		// (record with a new token) of the hammered instance's group inside the hammer window
+		for _, h := range tr.Plan.Hammers {
+			last := ""
+			for _, o := range tr.Ownership(tr.Plan.Instances[h.Inst].Group) {
+				if !o.Live() || !o.LibOK {
+					continue
+				}
+				if o.Lib.Token != last && o.FromT >= h.From && o.FromT <= h.To {
+					trans++
+				}
+				last = o.Lib.Token
+			}
+		}
+		v.Classes = append(v.Classes, "lean")
+	}
 	for _, e := range tr.Edges {
 		if e.Changed {
 			for _, h := range tr.Plan.Hammers {
@@ -60,7 +78,7 @@ func TestC20(t *testing.T) {
 		t.Skip("built without -race")
 	}
 	RunCheck(t, CheckSpec{Prop: "C20",
-		Rule:        "plans under every fault class (store faults, partitions, outside writes, takeover, health scripts, connection notifications, probes, stops at op phases, restarts, new objects) plus 1-3 'hammers': 2-8 concurrent caller goroutines per instance issuing IsLeader, LeaderID, Token, Status, ValidateToken, ValidateTokenOrDemote and callback re-registration every 1ns..H/4 of virtual time during a generated window; the binary is built with -race and runs with GOMAXPROCS=16 (virtual time, real parallel execution inside the bubble); oracle: every report of the Go race detector, normalised to the unordered pair of innermost library functions. Non-trivial = a run in which >= 2 hammer calls were made and a leadership transition of the hammered instance happened inside the hammer window; distinct by plan hash.",
+		Rule:        "plans under every fault class (store faults, partitions, outside writes, takeover, health scripts, connection notifications, probes, stops at op phases, restarts, new objects) plus 1-3 'hammers': 2-8 concurrent caller goroutines per instance issuing IsLeader, LeaderID, Token, Status, ValidateToken, ValidateTokenOrDemote and callback re-registration every 1ns..H/4 of virtual time during a generated window; the binary is built with -race and runs with GOMAXPROCS=16 (virtual time, real parallel execution inside the bubble); three plans in four run 'lean': logger and metrics are no-ops, callbacks and operation returns record nothing and take no shared lock, hammers do not synchronise with each other - so that the harness adds no happens-before edges between library goroutines; oracle: every report of the Go race detector, normalised to the unordered pair of innermost library functions. Non-trivial = a run in which >= 2 hammer calls were made and a leadership transition of the hammered instance (lean plans: an acquisition in its group) happened inside the hammer window; distinct by plan hash.",
 		Gen:         genRacePlan,
 		Oracle:      OracleC20,
 		Assumptions: []string{"the race detector only reports races on accesses that were executed; it is happens-before based, so the accesses need not coincide in time", "reports with no library frame on either side are harness bugs: they fail the check's self-test, not the property"}})
